@@ -8,9 +8,10 @@ V = '/verif'
 claimed = open(V + '/props/claimed.txt').read().split()
 def load(p): return json.load(open('%s/props/%s.json' % (V, p)))
 def key(r): return (r['src'], r['flavour'], tuple(r.get('defs', [])), r.get('std', 'c++20'), tuple(r.get('cxxflags', [])))
-TRACKED = {'harness/c01_vectors.cpp': {'defs_any': ['-DMC_PART=2', '-DMC_PART=3', '-DMC_PART=4']},
+TRACKED = {'harness/c01_vectors.cpp': {'defs_any': ['-DMC_PART=%d' % k for k in (2, 3, 4, 5, 6, 7, 8, 10)]},
            'harness/c07_optional.cpp': {}, 'harness/c07_variant.cpp': {}, 'harness/c07_expected.cpp': {},
-           'harness/c09_sets.cpp': {}, 'harness/c20_tuple_states.cpp': {}, 'harness/c20_inplace_function.cpp': {}}
+           'harness/c09_sets.cpp': {}, 'harness/c20_tuple_states.cpp': {}, 'harness/c20_inplace_function.cpp': {}, 'harness/c20_fn_sizes.cpp': {},
+           'harness/c20_tuple_forward.cpp': {}}
 def variants(pid, flavour):
     """runs of property pid re-flavoured; if the property already lists that flavour, those entries are used as is"""
     p = load(pid)
